@@ -88,7 +88,7 @@ def Mode.ofName : String → Option Mode
   | "default" => some .documented
   | "xerces-ts" => some .documented
   | "as-is" => some .documentedAsIs
-  | "xerces-default" => some .documented   -- XercesDOMParsedSource asks its liaison for thread-safe mode
+  | "xerces-default" => some .documented   -- XercesDOMParsedSource asks its liaison for thread-safe mode (fix: 8b7d92c)
   | "xerces-nopool" => some .xercesNoPool
   | "xerces-mapping" => some .xercesMapping
   | _ => none
